@@ -141,7 +141,7 @@ func (r *Raft) RaftInit(ctx context.Context) {
 				{
 					Suffrage: raft.Voter,
 					ID:       raft.ServerID(conf.ServerID),
-					Address:  raft.ServerAddress(conf.RaftBindAddr),
+					Address:  raft.ServerAddress(bindAddr),
 				},
 			},
 		}).Error()
